@@ -2,5 +2,5 @@
    behaviour of the current /repo tree for one recorded defect of the pinned commit:
    false = behaviour of the pinned commit, true = behaviour after the `fix:` commit in /repo.
    The correspondence checks evaluate the models with these constants against the code. *)
-Definition fixed_F02 : bool := false.   (* bound / membership failures counted under fix|update *)
+Definition fixed_F02 : bool := true.    (* bound / membership failures counted under fix|update *)
 Definition fixed_F17 : bool := false.   (* triple_quote: final quote not escaped twice *)
